@@ -119,7 +119,7 @@ theorem mkS_clone_range (code : Code) (lim : Limits) (s : VMState) (fn : String)
   have hfe := fetch_mkS code s fn ip rest mp k (⟨.range a b incl, o⟩ :: stk) mem out c _ hf hx
   unfold exec1
   rw [hfe]
-  simp only [step, mkS, pop1, cloneVal, advance, push1, Nat.add_assoc]
+  simp only [step, mkS, pop1, snapshotVal, cloneVal, advance, push1, Nat.add_assoc]
 
 /-- `Into_Iter` on a range: a new iterator over the snapshot of its elements. -/
 theorem mkS_intoIter_range (code : Code) (lim : Limits) (s : VMState) (fn : String) (ip : Nat) (rest : List Frame)
